@@ -28,12 +28,25 @@ func TxConfig() client.TxConfig { return EncCfg.TxConfig }
 
 // CosmosTx builds and signs a cosmos transaction (SIGN_MODE_DIRECT).
 func CosmosTx(chainID string, priv cryptotypes.PrivKey, accNum, seq uint64, gas uint64, feeAmt sdkmath.Int, msgs ...sdk.Msg) ([]byte, error) {
+	return CosmosTxMut(chainID, priv, accNum, seq, gas, feeAmt, nil, msgs...)
+}
+
+// CosmosTxMut is CosmosTx with a hook that may rewrite the protobuf transaction (e.g. the raw bytes
+// of a message, to produce encodings the generated marshaller never emits) BEFORE it is signed.
+func CosmosTxMut(chainID string, priv cryptotypes.PrivKey, accNum, seq uint64, gas uint64, feeAmt sdkmath.Int, mutate func(*txtypes.Tx), msgs ...sdk.Msg) ([]byte, error) {
 	cfg := TxConfig()
 	b := cfg.NewTxBuilder()
 	b.SetGasLimit(gas)
 	b.SetFeeAmount(sdk.Coins{sdk.NewCoin(utils.BaseDenom, feeAmt)})
 	if err := b.SetMsgs(msgs...); err != nil {
 		return nil, err
+	}
+	if mutate != nil {
+		pt, ok := b.(interface{ GetProtoTx() *txtypes.Tx })
+		if !ok {
+			return nil, fmt.Errorf("tx builder does not expose the proto tx")
+		}
+		mutate(pt.GetProtoTx())
 	}
 	mode := cfg.SignModeHandler().DefaultMode()
 	sig := signing.SignatureV2{PubKey: priv.PubKey(), Data: &signing.SingleSignatureData{SignMode: mode}, Sequence: seq}
